@@ -114,6 +114,15 @@ CHECKS = {
              "patterns per float type (all 2^32 float patterns in the thorough tier).",
         note="Raw operations that are UB are outside the domain.  The layout part is decided by the compiler; the specification contributes the table and the integer semantics.",
         technique="TLC-derived operator/rep table compiled as decltype assertions + raw-twin sweep with TLC-validated records", ref="6/C13"),
+    "C14": dict(
+        text="Product / quotient / power actions of the type-state machine: TLC gives for every ordered pair of unit expressions (catalogue) the "
+             "denotation of product and quotient, 'exactly unitless' (collapse to a raw number), quantity-equivalence (integer-division guard) "
+             "and per unit dimensionless / policy-safe.  Compiled assertions check decltype(a*b), decltype(a/b) against collapse, reference unit "
+             "and raw rep; powers -4..4, sqrt, cbrt, 1/q units; ~420 guard probes (integral / integral, int / integral quantity, negative "
+             "int_pow, as_raw_number) must be accepted or rejected as predicted, with unblock_int_div twins.  Values: exhaustive 8-bit operand "
+             "pairs and random wider ones next to the raw operator / std::sqrt / std::cbrt, sampled records judged by TLC.",
+        note="int_pow on floating reps is compared to 4 ulps (the library multiplies repeatedly).  Unit definitions are inputs.",
+        technique="TLC-decided denotations compiled as type assertions and accept/reject probes + raw-twin value sweep with TLC-validated records", ref="6/C14"),
 }
 
 
